@@ -554,7 +554,11 @@ theorem inv_fresh (s : State) (hfresh : ∀ p ∈ s.pools, p.Fresh) (hlive : s.l
     have hf := hfresh p (List.mem_of_getElem? hp)
     have hheld : heldOf s.live rid = [] := by simp [hlive, heldOf]
     rw [hheld]
-    refine ⟨?_, ?_, ?_, by simp⟩
+    refine ⟨?_, ?_, ?_, by simp, ?_⟩
+    rotate_right
+    · intro gid g hg j
+      have := hf.1 g (List.mem_of_getElem? hg)
+      simp [this.1, fracOf, FPU_pos]
     · intro gid
       simp only [univOf, hp]
       cases hg : p.groupsOf[gid]? with
